@@ -5,6 +5,7 @@
 #  * public domain *
 #
 
+import itertools
 from typing import List
 
 
@@ -30,9 +31,10 @@ def rldecode(data: bytes) -> bytes:
             break
 
         if 0 <= length < 128:
-            decoded_array.extend((next(data_iter) for _ in range(length + 1)))
+            # a run that the data ends in gives the bytes that are there
+            decoded_array.extend(itertools.islice(data_iter, length + 1))
 
         if length > 128:
-            run = [next(data_iter)] * (257 - length)
-            decoded_array.extend(run)
+            for byte in itertools.islice(data_iter, 1):
+                decoded_array.extend([byte] * (257 - length))
     return bytes(decoded_array)
